@@ -1,7 +1,7 @@
 #!/bin/bash
 # tools/cross_refactors.sh [ids..]: apply each benign refactoring (seeded/<id>/patch.diff or /tmp/seed/<id>/patch.diff) to a scratch copy and run ALL 20 quick checks on it
 cd "$(dirname "$0")/.."
-ids="$@"; [ -z "$ids" ] && ids=$(ls seeded | grep "[opqrstuvwxyz]$")
+ids="$@"; [ -z "$ids" ] && ids=$(for n in $(ls seeded); do python3 -c "import json,sys;sys.exit(0 if json.load(open('seeded/$n/meta.json')).get('kind')=='benign' else 1)" && echo $n; done)
 for id in $ids; do
   patch=seeded/$id/patch.diff; [ -f "$patch" ] || patch=/tmp/seed/$id/patch.diff
   patch="$(readlink -f "$patch")"
